@@ -83,6 +83,7 @@ def trio_structure(prog, cls):
     owned = the entry coroutine plus the own coroutines only ever awaited from owned ones"""
     start_fn = entry = None
     form = None
+    entry_handed = False
     for fis in cls.methods.values():
         for fi in fis:
             par = util.parents_map(fi.node)
@@ -97,6 +98,22 @@ def trio_structure(prog, cls):
                         d = util.dotted(up.args[2])
                         if d and d.startswith("self."):
                             start_fn, form, entry = fi, "handed", prog.lookup_method(cls, d.split(".")[1])
+    if start_fn is None:
+        # call form with the entry handed in:  def _run_blocking(async_fn): return trio.run(async_fn)
+        #                                      run_in_executor(<executor>, self._run_blocking, self.<entry>)
+        for fis in cls.methods.values():
+            for fi in fis:
+                for n in ast.walk(fi.node):
+                    if isinstance(n, ast.Call) and prog.resolve(fi.module, n.func) == "ext:trio.run" and n.args and isinstance(n.args[0], ast.Name) and n.args[0].id in fi.params():
+                        idx = fi.params().index(n.args[0].id)
+                        for gs in cls.methods.values():
+                            for g in gs:
+                                for c in ast.walk(g.node):
+                                    if isinstance(c, ast.Call) and isinstance(c.func, ast.Attribute) and c.func.attr == "run_in_executor" and len(c.args) >= 3 + idx and util.dotted(c.args[1]) == "self." + fi.name:
+                                        d = util.dotted(c.args[2 + idx])
+                                        if d and d.startswith("self."):
+                                            start_fn, form, entry = fi, "call", prog.lookup_method(cls, d.split(".")[1])
+                                            entry_handed = True
     if start_fn is None or entry is None:
         return None
     owned = {entry.name}
@@ -118,7 +135,7 @@ def trio_structure(prog, cls):
                 if refs and all(nm in owned and aw for nm, aw in refs):
                     owned.add(f.name)
                     changed = True
-    return {"start_fn": start_fn, "form": form, "entry": entry, "owned": owned}
+    return {"start_fn": start_fn, "form": form, "entry": entry, "owned": owned, "entry_handed": entry_handed}
 
 
 def monitor_fi(prog, cls, name):
